@@ -17,8 +17,9 @@ Fabs == {"A", "B", "C", "D", "E", "EN"}
 Regimes == {4, 6}
 Flows == {"ss_xz", "ss_yx", "pure_xy", "axi_c", "gen3d", "trace", "tdep", "xdep"}
 Texs == {"random", "clustered", "girdle", "nonuniform", "single"}
-Parts == {1, 5, 20}
-ParClasses == {[M |-> 0, chi |-> 0], [M |-> 10, chi |-> 0], [M |-> 50, chi |-> 0], [M |-> 50, chi |-> 3], [M |-> 10, chi |-> 9]}
+Parts == {1, 5, 20, 100}      \* 100 calls: a fine partition of a short history (total strain 0.05)
+\* (chi = 0.9 is left out: with uniform volumes 1/n every grain sits within 50% of the floor 0.9/n and would be skipped)
+ParClasses == {[M |-> 0, chi |-> 0], [M |-> 10, chi |-> 0], [M |-> 50, chi |-> 0], [M |-> 50, chi |-> 3], [M |-> 10, chi |-> 3]}
 Ns == {4, 8, 20}
 QClasses == {"octahedral", "rational", "random"}
 SClasses == {"none", "all", "subset"}
@@ -27,15 +28,19 @@ FrameScens(dummy) == {[kind |-> "frame", fab |-> f, regime |-> r, flow |-> fl, t
                     f \in Fabs, r \in Regimes, fl \in Flows, t \in Texs, p \in Parts, pc \in ParClasses, n \in Ns, q \in QClasses, s \in SClasses}
 ScaleScens(dummy) == {[kind |-> "scale", fab |-> f, regime |-> r, flow |-> fl, tex |-> t, part |-> p, par |-> pc, n |-> n, k |-> k] :
                     f \in Fabs, r \in Regimes, fl \in Flows, t \in Texs, p \in Parts, pc \in ParClasses, n \in Ns, k \in Ks}
+\* seeded sample, stratified so that EVERY (fabric, regime, frame class) triple of the frame family and
+\* EVERY (fabric, rate factor, coarse / fine partition) triple of the scale family occurs; the other dimensions are drawn by TLC
+Reps == IF K < 100 THEN 1 ELSE K \div 40
 ScenInit == /\ nUpd = 0 /\ strain = 0
             /\ st \in (IF K = 0 THEN FrameScens(0) \cup ScaleScens(0)
-                        ELSE {[kind |-> "frame", fab |-> RandomElement(Fabs), regime |-> RandomElement(Regimes), flow |-> RandomElement(Flows),
+                        ELSE {[kind |-> "frame", fab |-> f, regime |-> r, flow |-> RandomElement(Flows),
                                tex |-> RandomElement(Texs), part |-> RandomElement(Parts), par |-> RandomElement(ParClasses), n |-> RandomElement(Ns),
-                               q |-> RandomElement(QClasses), s |-> RandomElement(SClasses), i |-> i] : i \in 1..K}
+                               q |-> q, s |-> RandomElement(SClasses), i |-> i] : f \in Fabs, r \in Regimes, q \in QClasses, i \in 1..Reps}
                              \cup
-                             {[kind |-> "scale", fab |-> RandomElement(Fabs), regime |-> RandomElement(Regimes), flow |-> RandomElement(Flows),
-                               tex |-> RandomElement(Texs), part |-> RandomElement(Parts), par |-> RandomElement(ParClasses), n |-> RandomElement(Ns),
-                               k |-> RandomElement(Ks), i |-> i] : i \in 1..K})
+                             {[kind |-> "scale", fab |-> f, regime |-> RandomElement(Regimes), flow |-> RandomElement(Flows),
+                               tex |-> RandomElement(Texs), part |-> IF pc = "fine" THEN 100 ELSE RandomElement(Parts \ {100}),
+                               par |-> RandomElement(ParClasses), n |-> RandomElement(Ns),
+                               k |-> k, i |-> i] : f \in Fabs, k \in Ks, pc \in {"coarse", "fine"}, i \in 1..Reps})
 ScenNext == UNCHANGED vars
 \* the harness asks for a seeded subset: emit only scenarios whose index is selected
 EmitScen == PrintT(<<"SCEN", ToJson(st)>>)
